@@ -520,6 +520,14 @@ func (r *SeriesSketchesResponse) MarshalBinary() ([]byte, error) {
 
 	if r.Err != nil {
 		pb.Err = proto.String(r.Err.Error())
+		// Sketch and TSSketch are required fields; send them empty so that
+		// an error response can still be marshalled.
+		if pb.Sketch == nil {
+			pb.Sketch = []byte{}
+		}
+		if pb.TSSketch == nil {
+			pb.TSSketch = []byte{}
+		}
 	}
 	return proto.Marshal(&pb)
 }
@@ -599,6 +607,14 @@ func (r *MeasurementsSketchesResponse) MarshalBinary() ([]byte, error) {
 
 	if r.Err != nil {
 		pb.Err = proto.String(r.Err.Error())
+		// Sketch and TSSketch are required fields; send them empty so that
+		// an error response can still be marshalled.
+		if pb.Sketch == nil {
+			pb.Sketch = []byte{}
+		}
+		if pb.TSSketch == nil {
+			pb.TSSketch = []byte{}
+		}
 	}
 	return proto.Marshal(&pb)
 }
